@@ -366,6 +366,23 @@ def _run_filter(ctx, drv, rng, n_req, n_corrupt_frames, all_flags_for):
         ctx.count('filter:single-byte-corruption', len(muts))
         ctx.count('corruption-frames')
         n_corr += 1
+    # two corrupted bytes whose deltas cancel modulo 256 (every pair of offsets): a filter that sums the
+    # whole frame, or header and payload together, accepts these; judged by the specification
+    stim2 = []
+    for req, frame in accepted[:max(6, n_corrupt_frames // 2)]:
+        for i in range(len(frame)):
+            for j in range(i + 1, len(frame)):
+                for d in (1, 0x80, rng.randrange(1, 256)):
+                    bad = bytearray(frame)
+                    bad[i] = (bad[i] + d) % 256
+                    bad[j] = (bad[j] - d) % 256
+                    stim2.append((req, DEFAULT_FLAGS if (i + j) % 4 else '11111', bytes(bad)))
+    models = drv.ask_many(['flt %s %s %s' % (hs(r), fl, lean.hexs(f)) for r, fl, f in stim2])
+    specs = drv.ask_many(['isreply %s %s %s' % (hs(r), fl, lean.hexs(f)) for r, fl, f in stim2])
+    for (req, fl, f), m, sp in zip(stim2, models, specs):
+        ctx.case(('corrupt2', req, fl, f))
+        judge_filter(ctx, drv, req, fl, f, 'two-cancelling-corruptions', m, sp)
+    ctx.count('filter:two-cancelling-corruptions', len(stim2))
 
 
 def run(ctx):
